@@ -15,9 +15,12 @@ for d in sorted(os.listdir(os.path.join(ROOT, "seeded")), key=key):
     ok = r.get("exit") == 1
     c += ok
     note = r.get("note", "")
-    res = ("yes: " + ", ".join(r.get("violation_classes", []))) if ok else ("NO" if r else "not run")
+    oth = r.get("other_checks", {})
+    othc = [f"{k} check: " + ", ".join(v.get("violation_classes", [])) for k, v in oth.items() if v.get("exit") == 1]
+    res = ("yes: " + ", ".join(r.get("violation_classes", []))) if ok else (("no; " + "; ".join(othc)) if othc else ("NO" if r else "not run"))
+    c2 = globals().get("c2", 0) + (1 if (not ok and othc) else 0)
     rows.append(f"| {d} | {m['property']} | {title} | {res}{' — ' + note if note else ''} |")
 print("| id | property | change (first line of its README) | caught by `./check <property> quick` |")
 print("|---|---|---|---|")
 print("\n".join(rows))
-print(f"\n{c} of {n} caught by the check of their own property.")
+print(f"\n{c} of {n} caught by the check of their own property; {c2} more only by the check of the property that owns the mechanism (see the notes).")
